@@ -22,6 +22,7 @@ ColourBlind == {"material", "turochamp", "turomat", "bernstein1", "bernstein8", 
 JudgeSide(x, tag) ==
   LET pos == x.pos L == Legal(pos) IN
   IF ~WellFormed(pos) THEN {}
+  ELSE IF x.panic # "" THEN {"c20.panics-" \o x.panic \o tag}   \* the evaluations and filters are total
   ELSE Chk("c20.eval-not-finite" \o tag, \A nm \in EvalNames : x.eval[nm][2] = 1)
   \cup Chk("c20.plausible-not-legal" \o tag, MvSet(x.plausible) \subseteq L /\ NoDup(x.plausible))
   \cup Chk("c20.plausible-selection" \o tag,
@@ -40,7 +41,7 @@ JudgeEngines(e) ==
   JudgeSide(e.a, "")
   \cup JudgeSide(e.b, "-mirror")
   \cup Chk("harness.mirror", e.b.pos = Mirror(e.a.pos))
-  \cup (IF WellFormed(e.a.pos)
+  \cup (IF WellFormed(e.a.pos) /\ e.a.panic = "" /\ e.b.panic = ""
         THEN Chk("c20.not-colour-blind", \A nm \in ColourBlind : e.a.eval[nm] = e.b.eval[nm])
              \cup Chk("c20.filters-not-colour-blind",
                       /\ MvSet(e.b.sel.plausible0) = { MirrorMv(m) : m \in MvSet(e.a.sel.plausible0) }
